@@ -32,8 +32,8 @@ type StressResult struct {
 	Callers, Frames int
 	Retries         int    // timed-out callers that issued the same FContext again
 	RetryBad        string // the retry of a timed-out request was not served (C01 and C06)
-	Decoys          int // frames with a header value embedding another caller's serialised _opid pair
-	CrossSubject    int // frames published on the reply subject of another request (NATS)
+	Decoys          int    // frames with a header value embedding another caller's serialised _opid pair
+	CrossSubject    int    // frames published on the reply subject of another request (NATS)
 	Shape           string
 	Bad             string // C01 refuted (correlation)
 	Stall           string // C06 refuted: reader established blocked forever
